@@ -106,11 +106,13 @@ pub fn correctly_rounded(aa: u64, f: u32, p: u64, k: usize) -> bool {
     2 * diff < ulp || (2 * diff == ulp && (p & 1) == 0)
 }
 
-/// Region of the open known finding kf_c09_close_to_zero: while producing fraction digits the
-/// library stops as soon as the remaining fraction register (of its working word of `cb` bits) is
-/// within 10 units of zero, also when that remainder is a genuine non-zero part of the value.
+/// Region of the open known finding kf_c09_close_to_zero: while producing fraction digits the library stops as soon as
+/// the remaining fraction register (of its working word of `cb` bits) is within 10 units of zero, also when that
+/// remainder is a genuine non-zero part of the value.  The region is exactly where that rule CHANGES the output: the
+/// rule fires at a digit position before the last one of the digit budget, with a non-zero remainder, and digit
+/// generation had not stopped at that position or earlier by the shortest-round-trip rule (auto precision only).
 #[inline(always)]
-pub fn close_to_zero_fires(frac_bits: u64, f: u32, w: u32, max_digits: usize) -> bool {
+pub fn close_to_zero_fires(frac_bits: u64, f: u32, w: u32, max_digits: usize, auto_prec: bool) -> bool {
     // working word: the type's own word, halved while f < word/2 (the library's attempt_half fast path; never below u8)
     let mut cb: u32 = w;
     while cb > 8 && f < cb / 2 {
@@ -118,20 +120,40 @@ pub fn close_to_zero_fires(frac_bits: u64, f: u32, w: u32, max_digits: usize) ->
     }
     let mask: u128 = (1u128 << cb) - 1;
     let mut reg: u128 = ((frac_bits as u128) << (cb - f)) & mask;
+    // scaled half ulp of the shortest-round-trip rule: MSB >> f, or +5 after the first multiplication when f fills the word
+    let mut tie: u128 = if f == cb { 0 } else { (1u128 << (cb - 1)) >> f };
+    let mut add_5 = f == cb;
     let mut i = 0;
     let mut fired = false;
     while i < max_digits {
         reg = (reg * 10) & mask;
         let negr = ((1u128 << cb) - reg) & mask;
-        if reg != 0 && (reg < 10 || negr < 10) {
-            fired = true;
+        let close = reg < 10 || negr < 10;
+        let mut tie_stop = false;
+        if auto_prec {
+            tie = (tie * 10) & mask;
+            if add_5 {
+                tie = (tie + 5) & mask;
+                add_5 = false;
+            }
+            tie_stop = reg < tie || negr < tie;
         }
-        if reg < 10 || negr < 10 {
+        if close {
+            fired = reg != 0 && i + 1 < max_digits && !tie_stop;
+            break;
+        }
+        if tie_stop {
             break;
         }
         i += 1;
     }
     fired
+}
+
+/// the library's digit budget for a fraction of f bits: ceil(f * log10 2)
+#[inline(always)]
+pub fn digit_budget(f: u32) -> usize {
+    (((f as u64) * 0x4D10_4D43 + 0xFFFF_FFFF) >> 32) as usize
 }
 
 macro_rules! c09_display {
@@ -147,7 +169,7 @@ macro_rules! c09_display {
             let aa = aa as u64;
             if cfg!(feature = "kf_c09_close_to_zero") {
                 let fm: u64 = if $F == 0 { 0 } else { (1u64 << $F) - 1 };
-                kani::assume(!close_to_zero_fires(aa & fm, $F, <$I>::BITS, 12));
+                kani::assume(!close_to_zero_fires(aa & fm, $F, <$I>::BITS, digit_budget($F), true));
             }
             let mut s = Sink::new();
             let r = write!(s, "{}", x);
@@ -173,7 +195,7 @@ macro_rules! c09_roundtrip {
             let (_neg, aa) = bits.neg_abs();
             if cfg!(feature = "kf_c09_close_to_zero") {
                 let fm: u64 = if $F == 0 { 0 } else { (1u64 << $F) - 1 };
-                kani::assume(!close_to_zero_fires((aa as u64) & fm, $F, <$I>::BITS, 12));
+                kani::assume(!close_to_zero_fires((aa as u64) & fm, $F, <$I>::BITS, digit_budget($F), true));
             }
             let mut s = Sink::new();
             let r = write!(s, "{:?}", x);
@@ -202,7 +224,7 @@ macro_rules! c09_prec {
             kani::assume(p <= $PMAX);
             if cfg!(feature = "kf_c09_close_to_zero") {
                 let fm: u64 = if $F == 0 { 0 } else { (1u64 << $F) - 1 };
-                kani::assume(!close_to_zero_fires(aa & fm, $F, <$I>::BITS, p));
+                kani::assume(!close_to_zero_fires(aa & fm, $F, <$I>::BITS, p, false));
             }
             let mut s = Sink::new();
             let r = write!(s, "{:.*}", p, x);
